@@ -5,7 +5,8 @@
 (*                                                                         *)
 (* A Difficulty is a record of optionals.  Setter values are value classes *)
 (* with the concrete number chosen by the harness:                         *)
-(*   clock:  "below" "min" "one" "in" "max" "above" (0.001 0.01 1 1.3 100 5000) *)
+(*   clock:  "neg" "zero" "below" "min" "one" "in" "max" "above"            *)
+(*           (-1 0 0.001 0.01 1 1.3 100 5000)                               *)
 (*   attr :  "lo" "min" "in" "max" "hi" x with_mods  (-25 -20 6.5 20 25)   *)
 (* Clamp maps below/lo -> min and above/hi -> max: what inspect() shows.   *)
 (***************************************************************************)
@@ -16,7 +17,7 @@ NONE == [v |-> "none", w |-> FALSE]
 DFields == {"mods", "passed", "clock", "ar", "cs", "hp", "od", "hro", "lazer"}
 NewDifficulty == [f \in DFields |-> NONE]
 
-ClampClass(v) == CASE v = "below" -> "min" [] v = "above" -> "max" [] v = "lo" -> "min" [] v = "hi" -> "max" [] OTHER -> v
+ClampClass(v) == CASE v \in {"below", "zero", "neg"} -> "min" [] v = "above" -> "max" [] v = "lo" -> "min" [] v = "hi" -> "max" [] OTHER -> v
 
 (* a setter call is [f |-> field, v |-> value class or value, w |-> with_mods (attrs only)] *)
 Stored(call) ==
